@@ -26,6 +26,7 @@ import (
 	"github.com/plgd-dev/go-coap/v3/pkg/fn"
 	pkgMath "github.com/plgd-dev/go-coap/v3/pkg/math"
 	coapSync "github.com/plgd-dev/go-coap/v3/pkg/sync"
+	"github.com/plgd-dev/go-coap/v3/pkg/verifhook"
 	"github.com/plgd-dev/go-coap/v3/udp/coder"
 	"go.uber.org/atomic"
 	"golang.org/x/sync/semaphore"
@@ -418,11 +419,13 @@ func (cc *Conn) doInternal(req *pool.Message) (*pool.Message, error) {
 	defer func() {
 		_, _ = cc.tokenHandlerContainer.LoadAndDelete(token.Hash())
 	}()
+	verifhook.Yield("udp.doInternal.afterRegister", token.Hash())
 	err := cc.writeMessage(req)
 	if err != nil {
 		return nil, fmt.Errorf(errFmtWriteRequest, err)
 	}
 	cc.receivedMessageReader.TryToReplaceLoop()
+	verifhook.Yield("udp.doInternal.beforeWait", token.Hash())
 	select {
 	case <-req.Context().Done():
 		return nil, req.Context().Err()
@@ -805,6 +808,7 @@ func (cc *Conn) handleReq(w *responsewriter.ResponseWriter[*Conn], req *pool.Mes
 	} else if ok {
 		return
 	}
+	verifhook.Yield("udp.handleReq.afterCacheCheck", uint64(reqMid))
 
 	w.Message().SetModified(false)
 	reqType := req.Type()
